@@ -49,7 +49,9 @@ func (p *Pool) AcquireMessage(ctx context.Context) *Message {
 // It is forbidden accessing req and/or its' members after returning
 // it to Message pool.
 func (p *Pool) ReleaseMessage(req *Message) {
-	verifRelease(p, req)
+	if verifRelease(p, req) {
+		return
+	}
 	for {
 		v := p.currentMessagesInPool.Load()
 		if v >= int64(p.maxNumMessages) {
